@@ -1388,8 +1388,8 @@ func modFile(name string) string {
 	return "/proj/" + name + ".zn"
 }
 
-func runExc(t *zsim.Tape, cfg *hlib.Config, prop string) *hlib.Outcome {
-	p := genExcProgram(t)
+// excRender renders every module of p to source text (m.Source); layout noise is drawn from t.
+func excRender(t *zsim.Tape, p *xProgram) {
 	// importers of a private module list its functions and its exception class by name
 	selective := map[string]string{}
 	for _, m := range p.Mods {
@@ -1417,6 +1417,11 @@ func runExc(t *zsim.Tape, cfg *hlib.Config, prop string) *hlib.Outcome {
 	for _, m := range p.Mods {
 		renderModule(t, m, true, selective, noContent)
 	}
+}
+
+func runExc(t *zsim.Tape, cfg *hlib.Config, prop string) *hlib.Outcome {
+	p := genExcProgram(t)
+	excRender(t, p)
 	// fault-free reference run counts the dynamic probe invocations
 	base := refRun(p, xPlan{})
 	plan := xPlan{}
